@@ -498,10 +498,10 @@ func DateRangeFunc(query *Query, current Map, functionOptions *FunctionOptions, 
 		to   string
 	)
 	if args[0] != nil {
-		from = fmt.Sprintf("%v", args[0])
+		from = TextOf(args[0])
 	}
 	if args[1] != nil {
-		to = fmt.Sprintf("%v", args[1])
+		to = TextOf(args[1])
 	}
 	return []string{from, to}, nil
 }
